@@ -101,6 +101,9 @@ def run(ctx, model_ok):
         dec, thou = rng.choice(SEPS)
         cfg = [{"op": "cfg", "dec": dec, "thou": thou, "num": [digits, rz, rnd], "pct": [digits, rz, rnd], "money": [rz, rnd]}]
         vals = values(rng, digits)
+        if not ctx.quick():
+            for _ in range(8):
+                vals += values(rng, digits)
         rng.shuffle(vals)
         for v in vals[:per * 4]:
             kind = rng.choice(["number", "number", "percent", "money", "unit"])
